@@ -365,6 +365,7 @@ pub fn corr(run: &mut Run) {
     }
     run.extra.insert("programs".into(), serde_json::json!(done));
     discipline_stream(run);
+    run.rule.push_str(" | discipline: mask-discipline certificates searched for arithmetic / tensor / truncate programs (also pre-shared inputs). Leak searches (sound: nothing is reported unless constant under both secrets with different constants, different tapes per secret): ±1 combinations of ≤4 values a non-recipient can compute (16+16 tapes); quotients of opened permutations of compiled sorts (8+8 tapes); choice-bit predicates [F=0]=β for integer×bit MixedMultiply (16+16 tapes).");
     leak_stream(run);
     perm_leak_stream(run);
     ot_leak_stream(run);
